@@ -210,7 +210,10 @@ def check_meta(ctx):
     gi = ctx.prog.func(SM, "JokerSamples.__getitem__", R)
     rets = [s for s in A.walk_local(gi) if isinstance(s, ast.Return)]
     colret = [s for s in rets if canon(s.value) == canon(parse("self.tbl[key]"))]
-    okc = len(colret) == 1 and any(pol and "isinstance(key, str)" in A.unparse(t) and "key in self.par_names" in A.unparse(t) for t, pol in A.guards_of(colret[0]))
+    okc = False
+    if len(colret) == 1:
+        pc = A.conj(A.path_condition(colret[0], gi))
+        okc = A.nnf_implies(pc, A.nnf_of_src("isinstance(key, str) and key in self.par_names"))
     ctx.check(R, gi, "a parameter name returns that column", okc, "column access path changed", key="getitem:col")
     sel = [s for s in rets if isinstance(s.value, ast.Call) and canon(A.get_arg(s.value, 0, "samples") or ast.Constant(value=None)) == canon(parse("self.tbl[key]"))]
     ctx.check(R, gi, "any other key returns the re-wrapped selection self.tbl[key]", len(sel) >= 1 and len(sel) + len(colret) == len(rets), "returns: %s" % [A.unparse(s.value)[:40] for s in rets], key="getitem:sel")
